@@ -175,7 +175,7 @@ func init() {
 				if smt == "" {
 					panic(unsupported("%s on a symbolic float", name))
 				}
-				return symFloat{&Term{S: "(" + smt + " " + s.t.S + ")", Sort: SFP}}
+				return symFloat{t: &Term{S: "(" + smt + " " + s.t.S + ")", Sort: SFP}}
 			}
 			return host(a[0].(float64))
 		})
@@ -218,7 +218,7 @@ func init() {
 			} else {
 				pick = "(ite (fp.lt " + x + " " + y + ") " + x + " (ite (fp.lt " + y + " " + x + ") " + y + " (ite (fp.isNegative " + x + ") " + x + " " + y + ")))"
 			}
-			return symFloat{&Term{S: "(ite " + nan + " (_ NaN 11 53) " + pick + ")", Sort: SFP}}
+			return symFloat{t: &Term{S: "(ite " + nan + " (_ NaN 11 53) " + pick + ")", Sort: SFP}}
 		})
 	}
 	fpMinMax("math.Max", true)
@@ -254,7 +254,7 @@ func init() {
 	registerIntrinsic("math/rand.Float64", func(i *interpreter, fr *frame, fn *ssa.Function, a []value) value {
 		t := i.ctx.newInput("randf", SFP, "float")
 		i.ctx.assertPC(&Term{S: "(and (fp.leq " + fpConst(0).S + " " + t.S + ") (fp.lt " + t.S + " " + fpConst(1).S + "))", Sort: SBool})
-		return symFloat{t}
+		return symFloat{t: t}
 	})
 
 	// ---- reflect.DeepEqual and apimachinery's semantic variant ----
